@@ -949,6 +949,7 @@ Proof.
     destruct k; simpl; try exact H.
     + unfold Inv; simpl. apply InvC_create; assumption.
     + unfold Inv; simpl. apply InvC_create; assumption.
+    + unfold Inv; simpl. apply InvC_create; assumption.
     + apply Inv_delete; assumption.
     + apply Inv_delete; assumption.
     + destruct (find_entry id (clients st)) as [e|]; [destruct (kind_eqb (e_kind e) Pub)|]; exact H.
@@ -1415,8 +1416,16 @@ Proof.
   - (* command *)
     destruct (cs_sess (conns st c)) as [sid0|] eqn:Es; [|err_case Hb].
     assert (Hbd : bound b c = Some sid0) by congruence.
-    destruct k as [ | | id | id | id | ]; cbn [command] in *.
+    destruct k as [ | | | id | id | id | ]; cbn [command] in *.
     + (* create-publisher *)
+      unfold create in *. simpl in *. split.
+      * unfold chk_step. cbn [ob_applied obs_of applied]. four.
+        -- apply chk_sessions_quiet; [auto | reflexivity].
+        -- unfold chk_prehello. simpl. rewrite Hbd. reflexivity.
+        -- apply chk_cleanup_plain; [assumption | exact I].
+        -- reflexivity.
+      * eapply bind_ok_upd; [reflexivity | exact Hb | simpl; auto].
+    + (* create-subscriber *)
       unfold create in *. simpl in *. split.
       * unfold chk_step. cbn [ob_applied obs_of applied]. four.
         -- apply chk_sessions_quiet; [auto | reflexivity].
